@@ -1515,6 +1515,26 @@ func ruleBoundSide(c *Ctx, pkg string) {
 				}
 			}
 			if !own && sibling == "" && !beyond {
+				// no length test at all on this index — unless another value is held below THIS field's length on
+				// the way here: then the bound was meant for this access and is applied to the wrong index
+				for _, cm := range cmpsAt(in.Block()) {
+					x, y, op := cm.X, cm.Y, cm.Op
+					if _, isLen := isBuiltinCall(x, "len"); isLen {
+						x, y, op = y, x, flipOp(op)
+					}
+					ln, isLen := isBuiltinCall(y, "len")
+					if !isLen || x == idx || (op != token.LSS && op != token.LEQ) {
+						continue
+					}
+					if b2, g := loadedField(ln.Call.Args[0]); g != nil && sameField(g, f) && sym(b2) == sym(base) {
+						if _, isK := x.(*ssa.Const); isK {
+							continue
+						}
+						c.sawFn(name)
+						c.bad("R-BOUND-SIDE", fmt.Sprintf("%s:%s[%s]", name, f.Name(), ksym(idx)), in.Pos(), fmt.Sprintf("on the way to this access %s is held below len(.%s), but the index used is %s, which is not tested against that length at all: the bound is applied to the wrong index", ksym(x), f.Name(), ksym(idx)))
+						return
+					}
+				}
 				return // no length test at all on this index: not this rule's business
 			}
 			c.sawFn(name)
